@@ -225,13 +225,14 @@ def snapshot(detector, label="end"):
 def echo(detector, level=0.0, vec=(0.0, 0.0), name="x", other=0.0, tag=None):
     """Encode the argument values *actually received* into pixel / image so that a result identifies its run."""
     vec_t = tuple(float(v) for v in np.atleast_1d(np.asarray(vec, dtype=float)))
+    qe = getattr(detector.characteristics, "_quantum_efficiency", None)
+    temperature = getattr(detector.environment, "_temperature", None)
     rec = {"tag": tag, "level": float(level), "vec": list(vec_t), "name": str(name), "other": float(other),
-           "qe": detector.characteristics.quantum_efficiency, "temperature": detector.environment.temperature,
-           "step": int(detector.pipeline_count)}
+           "qe": qe, "temperature": temperature, "step": int(detector.pipeline_count)}
     ECHO.append(rec)
     _log(dict(rec, kind="echo"))
     shp = detector.geometry.shape
-    val = encode(level, vec_t, other, detector.characteristics.quantum_efficiency, detector.environment.temperature)
+    val = encode(level, vec_t, other, qe, temperature)
     detector.pixel.array = detector.pixel.array + np.full(shp, val)
     detector.signal.array = np.full(shp, float(level))
     detector.image.array = np.full(shp, int(abs(float(level)) * 16) % 60000, dtype=np.uint16)
